@@ -48,28 +48,35 @@ package types
 //@ func Stat.MarshalToSizedBufferVT
 //@   property C19 C20
 //@   requires room: len(dAtA) >= specStatSize(m)
-//@   modifies dAtA[*]
+//@   modifies dAtA[:]
 //@   loop 0 invariant used: i == len(dAtA) - len(m.unknownFields) - mapsum(m.Xattrs, 0, specXattrEntry)
+//@   loop 0 invariant front_untouched: forall k int :: {dAtA[k]} 0 <= k && k < i ==> dAtA[k] == old(dAtA[k])
 //@   ensures used: result1 == nil && result0 == specStatSize(m)
+// the encoding occupies exactly the last result0 bytes of the buffer: everything before is untouched
+//@   ensures front_untouched: forall k int :: 0 <= k && k < len(dAtA) - specStatSize(m) ==> dAtA[k] == old(dAtA[k])
 
 //@ func Packet.MarshalToSizedBufferVT
 //@   property C20 C06 C07
 //@   requires room: len(dAtA) >= specPacketSize(m)
-//@   modifies dAtA[*]
+//@   modifies dAtA[:]
 //@   ensures used: result1 == nil && result0 == specPacketSize(m)
+//@   ensures front_untouched: forall k int :: 0 <= k && k < len(dAtA) - specPacketSize(m) ==> dAtA[k] == old(dAtA[k])
 
 // MarshalToVT (the entry point the framing layer uses through MarshalTo) hands the encoder a
 // buffer of exactly the computed size
+// ... and the encoding is at the FRONT of the caller's buffer (dAtA[:n]): bytes behind it are untouched
 //@ func Packet.MarshalToVT
 //@   property C20
 //@   requires room: len(dAtA) >= specPacketSize(m)
-//@   modifies dAtA[*]
+//@   modifies dAtA[:]
 //@   ensures used: result1 == nil && result0 == specPacketSize(m)
+//@   ensures back_untouched: forall k int :: specPacketSize(m) <= k && k < len(dAtA) ==> dAtA[k] == old(dAtA[k])
 //@ func Packet.MarshalTo
 //@   property C20
 //@   requires room: len(dAtA) >= specPacketSize(p)
-//@   modifies dAtA[*]
+//@   modifies dAtA[:]
 //@   ensures used: result1 == nil && result0 == specPacketSize(p)
+//@   ensures back_untouched: forall k int :: specPacketSize(p) <= k && k < len(dAtA) ==> dAtA[k] == old(dAtA[k])
 //@ func Packet.Size
 //@   property C20
 //@   ensures size: result == specPacketSize(p)
